@@ -67,7 +67,7 @@ def run_shape(shape, tier):
     info = {}
 
     def h(ctx):
-        env = Env()
+        env = Env(symbolic=True)
         _setup(ctx, env, shape)
         try:
             rel = build(prog, env)
